@@ -87,6 +87,10 @@ fn conc_case(run_seed: u64, tier: Tier, profile: ConcProfile) -> Case {
     // alignment directives (a stream of their own: plans without them are unchanged): in a third of
     // the runs some client operations, and in half of those the final close, start exactly when
     // another task sits at a drawn kind of scheduling point
+    if rng.fork("reopen-split").chance(1, 5) {
+        // close + reopen between the two halves of every client's program
+        params.insert("reopen_split".to_string(), 1);
+    }
     let mut arng = rng.fork("align");
     if profile == ConcProfile::C09 && arng.chance(1, 3) {
         // close right after the last client returned, while flushes / compactions are in flight
@@ -495,7 +499,7 @@ fn iofault_spec() -> CheckSpec {
     CheckSpec {
         prop: "C08",
         level: "fault_enumeration",
-        rule: "one evaluation = one faulted run: a plan (4-40 ops quick, -150 thorough: puts, deletes, batches, gets after writes, flushes, compact_range, clean reopen; 40% of the plans end with 2-3 concurrent writers on disjoint key sets so that group commits run under faults) is first executed without faults to number its filesystem calls (all kinds: mkdir, list, open, read, len/size, create, write, rename, remove, lock), then re-executed with the same scheduler seed once per (call position, mode) with mode in {transient: that call fails, sticky: that call and all later ones fail, partial write: a failing write leaves a prefix behind (write calls only)}. Quick tier: <=30 positions per base run, stratified by (call kind, file class); thorough: all positions. Oracle during the run: every call returns Ok or Err (a panic is a violation); a get that returns Ok must return the value of the last Ok write or of a failed write issued after it. After disarming, closing and reopening: every key must be explainable by the Ok writes plus a subset of the failed writes, failed put-only batches all-or-nothing, and the reopen must succeed if anything was acknowledged. distinct_nontrivial = distinct coverage signatures (fault site = mode x call kind x file class, shapes).",
+        rule: "one evaluation = one faulted run: a plan (4-40 ops quick, -150 thorough: puts, deletes, batches, gets after writes, flushes, compact_range, clean reopen; 40% of the plans end with 2-3 concurrent writers on disjoint key sets so that group commits run under faults) is first executed without faults to number its filesystem calls (all kinds: mkdir, list, open, read, len/size, create, write, rename, remove, lock), then re-executed with the same scheduler seed once per (call position, mode) with mode in {transient: that call fails, sticky: that call and all later ones fail, partial write: a failing write leaves a prefix behind (write calls only)}. Quick tier: <=30 positions per base run, stratified by (call kind, file class); thorough: all positions. Oracle during the run: every call returns Ok or Err (a panic is a violation); a get that returns Ok must return the value of the last Ok write or of a failed write issued after it. Scans and an iterator program (full forward and backward walk with one iterator, a seek back to the key at which a step reported an error, then seeks to present and absent keys) run while the fault is armed: an Ok answer with an empty status() must be explainable. In a third of the faulted runs a second, transient fault hits the k-th filesystem call (k in 1..60) of an intermediate reopen; whatever that open returns, the clean reopen that follows is judged by the same oracle. A fifth of the plans run under the random or the Freeze scheduler instead of low-preemption ones; table reads get a quota of fault positions of their own. After disarming, closing and reopening: every key must be explainable by the Ok writes plus a subset of the failed writes, failed put-only batches all-or-nothing, and the reopen must succeed if anything was acknowledged. distinct_nontrivial = distinct coverage signatures (fault site = mode x call kind x file class, shapes).",
         assumptions: vec![
             "one injected failure per run (single position; sticky = persistent from that position), plus, in a third of the faulted runs, one transient failure at a drawn call of the recovery that follows".into(),
             "no short reads/writes without error, no EINTR: not injected because no listed property speaks about them".into(),
@@ -855,7 +859,7 @@ pub fn spec_for(prop: &str) -> Option<CheckSpec> {
             &["l0_ge4_over_l1_ge2", "multi_file_level_ge2"],
             (40_000, 1_500_000),
         ),
-        "C03" => mixed(hist_spec("C03", Profile::C03, "60% hist / 40% conc. conc clause: reader tasks take a snapshot or iterator, dump it immediately and dump it again later (and compare get with scan at the snapshot) while writer tasks keep rotating memtables, flushing and compacting; table-cache capacity 2 in most runs forces a parked reader to re-open files; first and later dumps must be equal and no read may fail. hist clause: one evaluation = one simulated single-client history in which snapshots and iterators are taken at arbitrary points, several live at once, and are re-read (get of every universe key, full forward and backward scan, get/scan agreement) after later write bursts, flushes, manual and background compactions; oracle = frozen BTreeMap clone taken at creation. distinct_nontrivial = distinct coverage signatures among runs where tables were written and read back.", &["l0_ge4_over_l1_ge2"], (40_000, 1_500_000)), vec![(60, Variant::Hist(Profile::C03)), (40, Variant::Conc(ConcProfile::C03))]),
+        "C03" => mixed(hist_spec("C03", Profile::C03, "60% hist / 40% conc. conc clause (additionally: what a view shows per key must be linearizable as a read inside the call that created the view; key sets with a single writer must show a state that exists between two of its writes; cursor programs of 6-20 random moves run on live iterators against their own first scan): reader tasks take a snapshot or iterator, dump it immediately and dump it again later (and compare get with scan at the snapshot) while writer tasks keep rotating memtables, flushing and compacting; table-cache capacity 2 in most runs forces a parked reader to re-open files; first and later dumps must be equal and no read may fail. hist clause: one evaluation = one simulated single-client history in which snapshots and iterators are taken at arbitrary points, several live at once, and are re-read (get of every universe key, full forward and backward scan, get/scan agreement) after later write bursts, flushes, manual and background compactions; oracle = frozen BTreeMap clone taken at creation. distinct_nontrivial = distinct coverage signatures among runs where tables were written and read back.", &["l0_ge4_over_l1_ge2"], (40_000, 1_500_000)), vec![(60, Variant::Hist(Profile::C03)), (40, Variant::Conc(ConcProfile::C03))]),
         "C04" => hist_spec("C04", Profile::C04, "one evaluation = one simulated history that builds an LSM shape under scheduler control while up to 3 iterators (latest or at a snapshot) are driven by random cursor programs over {seek(universe key or neighbour), seek_to_first, seek_to_last, next, prev} with direction reversals; after every step is_valid()/current() must equal a model cursor over the sorted visible pairs; iterators stay open across later writes, flushes and compactions. The cursor program is input generation; the simulation content is the layout under the iterator (produced by the background thread under scheduler control) and iterators outliving compaction and file deletion.", &["l0_ge4_over_l1_ge2"], (40_000, 1_500_000)),
         "C07" => mixed(hist_spec("C07", Profile::C07, "70% hist / 30% conc. conc clause: after concurrent writers finished (no quiesce), 1-2 reader tasks dump the database forwards/backwards repeatedly while the main task runs flush / compact_range and the background thread compacts; every dump must equal the state captured before. hist clause: one evaluation = one simulated history in which every flush, compact_range(range incl. open ends, empty, reversed) and quiesce is bracketed by full dumps at the latest state and at each live snapshot; dump_before == dump_after (and == model) is required. distinct_nontrivial = distinct coverage signatures among runs where tables were written and read back.", &["l0_ge4_over_l1_ge2", "multi_file_level_ge2"], (40_000, 1_500_000)), vec![(70, Variant::Hist(Profile::C07)), (30, Variant::Conc(ConcProfile::C07))]),
         "C10" => mixed(hist_spec("C10", Profile::C10, "70% hist / 10% conc / 20% crash-image runs (the structural part - unique numbers, ordered bounds, sorted and disjoint levels - is also checked at arbitrary moments while writers and the background thread are active: every 8th operation of a history and at every iterator creation of a concurrent run; one evaluation per crash point: the shape oracle runs on every recovered image right after open). hist clause: one evaluation = one simulated history; after the first open, every reopen, every CheckAll and at the end the database is quiesced and the structured shape (verif_shape) is checked: per level >= 1 files sorted and pairwise disjoint in internal-key order, smallest <= largest, no file number twice, and every file's bounds equal its first/last stored entry (table read back through verif_api::table_entries); cross-checked against NumFilesAtLevel and SSTables descriptors.", &["l0_ge4_over_l1_ge2", "multi_file_level_ge2"], (20_000, 1_500_000)), vec![(70, Variant::Hist(Profile::C10)), (10, Variant::Conc(ConcProfile::C11)), (20, Variant::Crash)]),
@@ -864,8 +868,8 @@ pub fn spec_for(prop: &str) -> Option<CheckSpec> {
             hist_spec("C09", Profile::C09, "one evaluation = one simulated run: 5% fault-enumeration runs of the C08 engine (hangs and background panics after a transient or partial-write fault - the filesystem keeps making progress - count; those under a sticky fault do not), the rest on a fault-free filesystem: 25% single-client histories incl. every descriptor kind, 30% concurrent runs with writers, readers, compact_range, every descriptor kind (incl. Stats), snapshot take/release, flush, and close while background work may still be in flight, 40% the concurrent workloads of C05/C03/C11/C06. Violations: shuttle reports a deadlock (all live tasks blocked) or a re-entrant lock acquisition; any task of an open database panics (the orphan worker of a failed open is exempt); a background error is recorded; a run exceeds 2M scheduler steps and still does under a fair round-robin schedule (otherwise counted as unfair_schedule_timeouts).", &["freeze_fired"], (30_000, 2_000_000)),
             vec![(25, Variant::Hist(Profile::C09)), (30, Variant::Conc(ConcProfile::C09)), (5, Variant::IoFault), (5, Variant::Conc(ConcProfile::C05Big)), (10, Variant::Conc(ConcProfile::C05)), (10, Variant::Conc(ConcProfile::C03)), (10, Variant::Conc(ConcProfile::C11)), (10, Variant::Conc(ConcProfile::C06))],
         ),
-        "C05" => mixed(conc_spec("C05", ConcProfile::C05, "85% standard / 15% big-write runs (3-5 clients x 2-6 operations with 70-300 KB values so that queued writers hit the group-commit size limits). Standard: one evaluation = one simulated concurrent run: 2-5 client tasks x 5-60 operations over 2-8 keys (unique value tags) with 512 B-4 KiB memtables so that rotation, flush and compaction run continuously; schedulers Random / Sticky / PCT(depth 1-4) / Freeze (parks a task at an unlocked_fair exit, filesystem call or hook until the others are blocked or a step budget expires). The invoke/return history (global event sequence numbers) is checked per key against a register model by a memoised WGL search, with the final quiesced state as a last read; phantom reads, reads from the future and write errors are violations. Histories above the checker budget are counted as unchecked, never as violations.", &["freeze_fired", "group_commit_merged_writers"], (30_000, 2_000_000)), vec![(85, Variant::Conc(ConcProfile::C05)), (15, Variant::Conc(ConcProfile::C05Big))]),
-        "C06" => conc_spec("C06", ConcProfile::C06, "one evaluation = one simulated concurrent run in which 1-3 writer tasks each own a row group of 2-8 keys and repeatedly apply one batch writing the same fresh tag to every key of the group (sometimes deleting all, sometimes padded beyond the memtable budget) while 1-2 reader tasks take snapshots / iterators and read whole groups; H4 puts a scheduling point after every single memtable insert, SimFs before and after the WAL append. Oracle: in every snapshot-consistent read all keys of a group carry the same tag.", &["freeze_fired"], (30_000, 2_000_000)),
+        "C05" => mixed(conc_spec("C05", ConcProfile::C05, "85% standard / 15% big-write runs (3-5 clients x 2-6 operations with 70-300 KB values so that queued writers hit the group-commit size limits). Standard: one evaluation = one simulated concurrent run: 2-5 client tasks x 5-60 operations over 2-8 keys (unique value tags) with 512 B-4 KiB memtables so that rotation, flush and compaction run continuously; schedulers Random / Sticky / PCT(depth 1-4) / Freeze (parks a task at an unlocked_fair exit, filesystem call or hook until the others are blocked or a step budget expires). The invoke/return history (global event sequence numbers) is checked per key against a register model by a memoised WGL search, with the final quiesced state as a last read; phantom reads, reads from the future and write errors are violations; what a snapshot or iterator shows for a key is added as a read whose interval is the call that created the view (gets and writes alone are checked first). Histories above the checker budget are counted as unchecked, never as violations. A scheduling point follows every mutex release; a third of the runs carry alignment directives (an operation starts exactly when another task has just released the database mutex, sits in an unlocked section, a filesystem call or a hook).", &["freeze_fired", "group_commit_merged_writers"], (30_000, 2_000_000)), vec![(85, Variant::Conc(ConcProfile::C05)), (15, Variant::Conc(ConcProfile::C05Big))]),
+        "C06" => conc_spec("C06", ConcProfile::C06, "one evaluation = one simulated concurrent run in which 1-3 writer tasks each own a row group of 2-8 keys and repeatedly apply one batch writing the same fresh tag to every key of the group (sometimes deleting all, sometimes padded beyond the memtable budget) while 1-2 reader tasks take snapshots / iterators and read whole groups; H4 puts a scheduling point after every single memtable insert, SimFs before and after the WAL append. Oracle: in every snapshot-consistent read all keys of a group carry the same tag; in a third of the plans a writer also overwrites or deletes part of its group, and then (as for every key set with a single writer) the read must show a state that exists between two of that writer's batches; per key, the value a view shows must be linearizable as a read inside the call that created the view.", &["freeze_fired"], (30_000, 2_000_000)),
         "C12" => log_spec(),
         "C08" => iofault_spec(),
         "C15" => corrupt_spec(),
